@@ -26,7 +26,7 @@ def phase_covariance(r, r0, L0):
     L0 = float(L0)
 
     # Get rid of any zeros
-    r += 1e-40
+    r = r + 1e-40
 
     A = (L0 / r0) ** (5. / 3)
 
